@@ -6,8 +6,8 @@ LEVEL="seeded search over schedules, fault sequences and workloads of the real n
 NOTE="trusted base: the rewriter, simrt scheduler and shims, synctest.Wait as quiescence barrier, the reference models/oracles; yields at atomics, syscalls, channel/mutex operations and spawns only; AF_UNIX sockets on the real kernel"
 tech={
  "C01":"seeded operation sequences against a FIFO byte-queue reference model (model-based testing inside the simulator's allocator environment)",
- "C02":"same sequences with every live zero-copy result snapshot-compared after every operation under a poisoning / adversarially reusing allocator",
- "C03":"same sequences with an allocator and node-pool ledger (double free, foreign free, caller memory modified)",
+ "C02":"same sequences with every live zero-copy result snapshot-compared after every operation under a poisoning / adversarially reusing allocator; plus deterministic simulation of Slice readers owned by other tasks, read, cut and released under seeded schedules that interleave at the reference-count atomics",
+ "C03":"same sequences with an allocator and node-pool ledger (double free, foreign free, caller memory modified); the concurrent Slice-owner scenario runs under the same ledger",
  "C04":"deterministic simulation: two real connections over a socket pair under seeded schedules and kernel short-write/short-read/EAGAIN faults; position-keyed stream oracle",
  "C05":"deterministic simulation: seeded schedule/fault search over the real accept path, pollers and connection state machine; teardown monitors over the recorded history (exactly-once callbacks, descriptor ledger, IsActive monotonicity, poller-spin detection)",
  "C06":"deterministic simulation: seeded schedule/fault search; serial-handler monitor and stranded-input/lost-input oracles at quiescence",
